@@ -272,10 +272,12 @@ func mergeResults(rs []Result) []ObReport {
 		o.TimeS += r.TimeS
 		if r.Ob.Kind == "cover" {
 			// reachable on at least one path is enough
+			// ... and unreachable only if EVERY path is proved infeasible: one
+			// path the solvers could not settle leaves the question open
 			if st == "discharged" {
 				o.Status = "discharged"
-			} else if o.Status != "discharged" && rank[st] > rank[o.Status] {
-				o.Status = st
+			} else if o.Status != "discharged" && st == "undecided" {
+				o.Status = "undecided"
 			}
 			continue
 		}
